@@ -173,6 +173,17 @@ int __wrap_accept (int fd, struct sockaddr *sa, socklen_t *len) {
 	if (r >= 0 && r < MAXFD) cloexec_tab[r] = 0;
 	return (int) r;
 }
+/* a source that accepts with accept4 (): same script queue as accept; the descriptor is born close-on-exec iff
+ * SOCK_CLOEXEC was passed (the issued-call log shows the flags, so the model column differs: a correspondence matter;
+ * what the property says is judged on the close-on-exec state of the accepted socket) */
+int __real_accept4 (int, struct sockaddr *, socklen_t *, int);
+int __wrap_accept4 (int fd, struct sockaddr *sa, socklen_t *len, int flags) {
+	if (!in_call) return __real_accept4 (fd, sa, len, flags);
+	Entry *e = pop (S_accept); iss ("accept4:%d:%d:%d:%d", fd, sa == NULL, len == NULL, flags);
+	long long r = fin (e);
+	if (r >= 0 && r < MAXFD) cloexec_tab[r] = (flags & SOCK_CLOEXEC) != 0;
+	return (int) r;
+}
 static size_t deliver (Entry *e, void *buf, size_t len) {
 	size_t n = (size_t) e->ret;
 	if (n > len) n = len;
